@@ -204,8 +204,10 @@ theorem copyBackOne_xl (c : Ctx) (e : Expr) (av : Val) :
     · exact ⟨rfl, by simp⟩
     · next hx =>
       split
-      · exact ⟨rfl, fun _ => ⟨rfl, by omega⟩⟩
-      · exact ⟨xl_setRec0 c _, by simp⟩
+      · exact ⟨rfl, by simp⟩
+      · split
+        · exact ⟨rfl, fun _ => ⟨rfl, by omega⟩⟩
+        · exact ⟨xl_setRec0 c _, by simp⟩
   | nr => exact ⟨rfl, by simp⟩
   | lit s => exact ⟨rfl, by simp⟩
   | app e s => exact ⟨rfl, by simp⟩
